@@ -29,11 +29,17 @@ pub fn strategy() -> impl Strategy<Value = Case> {
         .prop_map(|(clients, requests_per_client, pause_us, clear_every, seed)| Case { clients, requests_per_client, pause_us, clear_every, seed })
 }
 
-pub const RULE: &str = "stress half (end-to-end): 2-6 clients, each on its own keep-alive connection attributed to an authorised caller, send 40-400 requests back to back through the real listener (multi-thread runtime) while another thread replaces the latched key as fast as it can (generated pause 0-2000 us; every 2nd/5th change is a clear followed by a re-latch). Every key is registered with the mock host BEFORE it is handed to the agent; key ids are lower-case, upper-case and mixed-case. oracle: every request that reaches the host with an authorization header announces a registered key id and its MAC verifies under THAT key over the request as received. non-trivial: >= 20 key changes happened while requests were in flight; distinct by hash of the case.";
+pub const RULE: &str = "stress half (end-to-end): 2-6 clients, each on its own keep-alive connection attributed to an authorised caller, send 40-400 requests back to back through the real listener (multi-thread runtime) while another thread replaces the latched key as fast as it can (generated pause 0-2000 us; every 2nd/5th change is a clear followed by a re-latch). Every key is registered with the mock host BEFORE it is handed to the agent; key ids are lower-case, upper-case and mixed-case, secrets are 256, 512 and 128 bits long in turn. oracle: every request that reaches the host with an authorization header announces a registered key id and its MAC verifies under THAT key over the request as received. non-trivial: >= 20 key changes happened while requests were in flight; distinct by hash of the case.";
 
 fn key_of(seed: u64, i: u64) -> (String, String) {
     let g = crate::hmacsha::hex_lower(&crate::hmacsha::sha256(format!("c10s-guid-{}-{}", seed, i).as_bytes()));
     let k = crate::hmacsha::hex_lower(&crate::hmacsha::sha256(format!("c10s-key-{}-{}", seed, i).as_bytes()));
+    // secrets of different sizes follow each other: 256 bit as a rule, 512 and 128 bit in between
+    let k = match i % 5 {
+        2 => format!("{}{}", k, crate::hmacsha::hex_lower(&crate::hmacsha::sha256(k.as_bytes()))),
+        4 => k[..32].to_string(),
+        _ => k,
+    };
     let guid = format!("{}-{}-{}-{}-{}", &g[0..8], &g[8..12], &g[12..16], &g[16..20], &g[20..32]);
     // key ids are opaque text to the agent: upper-case and mixed-case spellings too
     let guid = match i % 4 {
